@@ -43,7 +43,8 @@ type stepLog struct {
 
 // user = one clone + what the sequence-defined model expects of it.
 type user struct {
-	name  string
+	name  string // name of the clone: alice | bob | alice2 | bob2 (a second clone of the same server identity)
+	ident string // identity the server sees (X-Verif-User): alice | bob
 	dir   string
 	other *user
 	// expected cache: id -> path. "+ each lock the server granted to this user,
@@ -103,7 +104,8 @@ type cse struct {
 	lvKey     [2]string // url | global
 	unimpl    int       // status used by the *-unimpl flavors
 	bare      string
-	users     [2]*user
+	users     []*user
+	twoClones bool // a second clone of one of the users (index 2)
 	files     []string
 	lockable  map[string]bool
 	oddPaths  map[string]bool
@@ -266,7 +268,7 @@ func (c *cse) applyEvents(u *user, before []lockRec) (granted, released []lockRe
 		if _, ok := bm[l.ID]; ok {
 			continue
 		}
-		if l.Owner != u.name {
+		if l.Owner != u.ident {
 			c.run.Inconclusive(fmt.Sprintf("case %d: lock %s appeared for %s during a command of %s", c.idx, l.ID, l.Owner, u.name))
 			c.abort = true
 			continue
@@ -297,7 +299,7 @@ func (c *cse) applyEvents(u *user, before []lockRec) (granted, released []lockRe
 			delete(u.candPol, l.ID)
 		}
 		c.count("model_unlocks_confirmed", 1)
-		if l.Owner != u.name {
+		if l.Owner != u.ident {
 			c.count("model_foreign_locks_force_released", 1)
 		}
 	}
@@ -350,8 +352,8 @@ func (c *cse) afterVerifyListing(u *user, reqs []*fakelfs.Request) {
 	}
 	t := c.table()
 	if ok {
-		u.exp = oursOf(t, u.name)
-		u.pol = theirsOf(t, u.name)
+		u.exp = oursOf(t, u.ident)
+		u.pol = theirsOf(t, u.ident)
 		u.lost = map[string]string{}
 		u.lostWhy = ""
 		u.candExp, u.candPol = nil, nil
@@ -363,7 +365,7 @@ func (c *cse) afterVerifyListing(u *user, reqs []*fakelfs.Request) {
 	for id, p := range u.exp {
 		u.lost[id] = p
 	}
-	for id, p := range theirsOf(t, u.name) { // pages that did arrive may have been cached; older entries may survive
+	for id, p := range theirsOf(t, u.ident) { // pages that did arrive may have been cached; older entries may survive
 		u.pol[id] = p
 	}
 	u.snapVerifyOK = false
@@ -584,6 +586,13 @@ func (c *cse) remoteRefs() map[string]string {
 	return out
 }
 
+// remoteHas: the commit is already in the remote repository (a remote ref may have moved on to a tip this
+// clone does not have yet; commits below it are not new to the remote although the clone cannot exclude
+// them by the tip's name). Before a push every object of the bare repository is reachable from its refs.
+func (c *cse) remoteHas(commit string) bool {
+	return c.env.PlainGit(c.bare, "cat-file", "-e", commit+"^{commit}").OK()
+}
+
 // touchedByPush: paths added or modified by the commits that `git push origin <branches>`
 // would newly bring to the remote (per commit: differs from every parent), and
 // whether every updated ref is a fast-forward.
@@ -612,6 +621,9 @@ func (c *cse) touchedByPush(u *user, branches []string, remote map[string]string
 		}
 		args := append([]string{"rev-list", local}, not...)
 		for _, cm := range strings.Fields(c.plain(u.dir, args...)) {
+			if c.remoteHas(cm) {
+				continue
+			}
 			r := c.env.PlainGit(u.dir, "diff-tree", "-r", "-c", "--root", "-z", "--name-status", "--no-commit-id", cm)
 			f := strings.Split(string(r.Stdout), "\x00")
 			for i := 0; i+1 < len(f); i += 2 {
